@@ -42,6 +42,119 @@ static void ensure_dir(const std::string& path)
 	if(stat(d.c_str(), &sb) != 0)
 		mkdir(d.c_str(), 0755);
 }
+// ---------- ambient process state (case prefix "amb <spec>") ----------
+// The export / import functions build their streams themselves; whatever the program has set up process-wide before calling
+// them is part of the situation the property quantifies over ("for any finite values and units" - in any program).
+// spec = items joined by '+':
+//   dpXX   global C++ locale (std::locale::global) whose numpunct has the decimal point 0xXX
+//   tsXX   ... the thousands separator 0xXX          grD..  ... the grouping D.. (one digit per group size, e.g. gr3, gr32)
+//   cpN    std::cout.precision(N)                   cff / cfs / cfh   std::cout floatfield fixed / scientific / hexfloat
+//   preN   the path already holds a file of N bytes (numeric lines) when Export_* is called (instead of no file)
+//   rel    the working directory is the file's directory and the path is given relative to it
+// The arguments of the case are read before the state is installed and the answer is printed after it was restored.
+struct Punct : std::numpunct<char>
+{
+	char dp, ts;
+	std::string gr;
+	Punct(char d, char t, const std::string& g) : dp(d), ts(t), gr(g) {}
+	char do_decimal_point() const override { return dp; }
+	char do_thousands_sep() const override { return ts; }
+	std::string do_grouping() const override { return gr; }
+};
+struct Ambient
+{
+	bool locale = false, rel = false, inside = false;
+	char dp = '.', ts = ',';
+	std::string gr;
+	long cout_precision = -1, pre = -1;
+	char cout_float = 0;
+	std::string cwd_saved;
+	void parse(const std::string& spec)
+	{
+		std::istringstream is(spec);
+		std::string it;
+		while(std::getline(is, it, '+'))
+		{
+			if(it.compare(0, 2, "dp") == 0)
+				locale = true, dp = (char) std::strtol(it.c_str() + 2, nullptr, 16);
+			else if(it.compare(0, 2, "ts") == 0)
+				locale = true, ts = (char) std::strtol(it.c_str() + 2, nullptr, 16);
+			else if(it.compare(0, 2, "gr") == 0)
+			{
+				locale = true;
+				for(size_t k = 2; k < it.size(); k++)
+					gr.push_back((char) (it[k] - '0'));
+			}
+			else if(it.compare(0, 2, "cp") == 0)
+				cout_precision = std::strtol(it.c_str() + 2, nullptr, 10);
+			else if(it.compare(0, 2, "cf") == 0 && it.size() == 3)
+				cout_float = it[2];
+			else if(it.compare(0, 3, "pre") == 0)
+				pre = std::strtol(it.c_str() + 3, nullptr, 10);
+			else if(it == "rel")
+				rel = true;
+			else
+			{
+				fprintf(stderr, "harness: unknown ambient item %s\n", it.c_str());
+				_exit(77);
+			}
+		}
+	}
+	// the file the writers will find at the path: none, or old content longer than what is about to be written
+	std::string prepare(const std::string& path)
+	{
+		std::remove(path.c_str());
+		if(pre >= 0)
+		{
+			FILE* f = std::fopen(path.c_str(), "w");
+			if(f)
+			{
+				const char* old = "7.5\t7.5\n";
+				for(long k = 0; k < pre; k++)
+					std::fputc(old[k % 8], f);
+				std::fclose(f);
+			}
+		}
+		if(!rel)
+			return path;
+		size_t p = path.rfind('/');
+		return p == std::string::npos ? path : path.substr(p + 1);
+	}
+	void enter(const std::string& path)
+	{
+		inside = true;
+		if(rel)
+		{
+			char buf[4096];
+			cwd_saved = getcwd(buf, sizeof buf) ? buf : "";
+			size_t p  = path.rfind('/');
+			if(p != std::string::npos && chdir(path.substr(0, p).c_str()) != 0) {}
+		}
+		if(cout_precision >= 0)
+			std::cout.precision(cout_precision);
+		if(cout_float == 'f')
+			std::cout.setf(std::ios_base::fixed, std::ios_base::floatfield);
+		else if(cout_float == 's')
+			std::cout.setf(std::ios_base::scientific, std::ios_base::floatfield);
+		else if(cout_float == 'h')
+			std::cout.setf(std::ios_base::fixed | std::ios_base::scientific, std::ios_base::floatfield);
+		if(locale)
+			std::locale::global(std::locale(std::locale::classic(), new Punct(dp, ts, gr)));
+	}
+	void leave()
+	{
+		if(!inside)
+			return;
+		inside = false;
+		if(locale)
+			std::locale::global(std::locale::classic());
+		std::cout.precision(6);
+		std::cout.unsetf(std::ios_base::floatfield);
+		if(rel && !cwd_saved.empty() && chdir(cwd_saved.c_str()) != 0) {}
+	}
+};
+static Ambient A;
+
 static void put_table(vh::Out& o, const std::vector<std::vector<double>>& t)
 {
 	o.i((long) t.size());
@@ -51,6 +164,17 @@ static void put_table(vh::Out& o, const std::vector<std::vector<double>>& t)
 static void handler(vh::Reader& r, vh::Out& o)
 {
 	std::string op = r.word();
+	A			   = Ambient();
+	if(op == "amb")
+	{
+		A.parse(r.word());
+		op = r.word();
+		if(op.compare(0, 3, "rt_") != 0 && op != "session")
+		{
+			o.w("HARNESSERR ambient_state_only_for_round_trips");
+			return;
+		}
+	}
 	if(op == "in_units_s")
 	{
 		double q = r.num(), dim = r.num();
@@ -114,10 +238,14 @@ static void handler(vh::Reader& r, vh::Out& o)
 		auto data  = r.list();
 		double dim = r.num();
 		ensure_dir(path);
-		std::remove(path.c_str());
-		Export_List(path, data, dim, header);
-		o.i(Count_Lines(path));
-		o.fl(Import_List(path, dim, header_lines(header)));
+		std::string p = A.prepare(path);
+		A.enter(path);
+		Export_List(p, data, dim, header);
+		unsigned int n = Count_Lines(p);
+		auto back	   = Import_List(p, dim, header_lines(header));
+		A.leave();
+		o.i(n);
+		o.fl(back);
 	}
 	else if(op == "rt_table")
 	{
@@ -126,10 +254,14 @@ static void handler(vh::Reader& r, vh::Out& o)
 		auto dims = r.list();
 		long ign  = r.integer();
 		ensure_dir(path);
-		std::remove(path.c_str());
-		Export_Table(path, data, dims, header);
-		o.i(Count_Lines(path));
-		put_table(o, Import_Table(path, dims, ign < 0 ? header_lines(header) : (unsigned int) ign));
+		std::string p = A.prepare(path);
+		A.enter(path);
+		Export_Table(p, data, dims, header);
+		unsigned int n = Count_Lines(p);
+		auto back	   = Import_Table(p, dims, ign < 0 ? header_lines(header) : (unsigned int) ign);
+		A.leave();
+		o.i(n);
+		put_table(o, back);
 	}
 	else if(op == "rt_func")
 	{
@@ -138,10 +270,14 @@ static void handler(vh::Reader& r, vh::Out& o)
 		auto xs	  = r.list();
 		auto dims = r.list();
 		ensure_dir(path);
-		std::remove(path.c_str());
-		Export_Function(path, f, xs, dims, header);
-		o.i(Count_Lines(path));
-		put_table(o, Import_Table(path, dims, header_lines(header)));
+		std::string p = A.prepare(path);
+		A.enter(path);
+		Export_Function(p, f, xs, dims, header);
+		unsigned int n = Count_Lines(p);
+		auto back	   = Import_Table(p, dims, header_lines(header));
+		A.leave();
+		o.i(n);
+		put_table(o, back);
 	}
 	else if(op == "rt_func2")
 	{
@@ -152,10 +288,99 @@ static void handler(vh::Reader& r, vh::Out& o)
 		auto dims  = r.list();
 		long lg	   = r.integer();
 		ensure_dir(path);
-		std::remove(path.c_str());
-		Export_Function(path, f, a, b, (unsigned int) steps, dims, lg != 0, header);
-		o.i(Count_Lines(path));
-		put_table(o, Import_Table(path, dims, header_lines(header)));
+		std::string p = A.prepare(path);
+		A.enter(path);
+		Export_Function(p, f, a, b, (unsigned int) steps, dims, lg != 0, header);
+		unsigned int n = Count_Lines(p);
+		auto back	   = Import_Table(p, dims, header_lines(header));
+		A.leave();
+		o.i(n);
+		put_table(o, back);
+	}
+	else if(op == "session")
+	{
+		// several calls in ONE process: session <np> <path>.. <nops> then per call
+		//   el <i> <header> <list> <dim> | et <i> <header> <table> <dims> | il <i> <dim> <ign> | it <i> <dims> <ign> | cl <i>
+		// every path starts out absent (or, under "amb pre<N>", holding an old file); answers: il -> list, it -> table, cl -> count
+		struct Call
+		{
+			std::string kind, header;
+			long path = 0, ign = 0;
+			double dim = 1.0;
+			std::vector<double> list;
+			std::vector<std::vector<double>> table;
+		};
+		struct Answer
+		{
+			char kind;
+			long count;
+			std::vector<double> list;
+			std::vector<std::vector<double>> table;
+		};
+		long np = r.integer();
+		std::vector<std::string> paths, use;
+		for(long k = 0; k < np; k++)
+			paths.push_back(r.word());
+		long nops = r.integer();
+		std::vector<Call> calls;
+		for(long k = 0; k < nops; k++)
+		{
+			Call c;
+			c.kind = r.word();
+			c.path = r.integer();
+			if(c.path < 0 || c.path >= np)
+			{
+				o.w("HARNESSERR path_index");
+				return;
+			}
+			if(c.kind == "el")
+				c.header = unhex(r.word()), c.list = r.list(), c.dim = r.num();
+			else if(c.kind == "et")
+				c.header = unhex(r.word()), c.table = r.table(), c.list = r.list();
+			else if(c.kind == "il")
+				c.dim = r.num(), c.ign = r.integer();
+			else if(c.kind == "it")
+				c.list = r.list(), c.ign = r.integer();
+			else if(c.kind != "cl")
+			{
+				o.w("HARNESSERR session_call");
+				return;
+			}
+			calls.push_back(c);
+		}
+		for(auto& p : paths)
+		{
+			ensure_dir(p);
+			use.push_back(A.prepare(p));
+		}
+		std::vector<Answer> answers;
+		A.enter(paths.empty() ? std::string("x") : paths[0]);
+		for(auto& c : calls)
+		{
+			const std::string& p = use[c.path];
+			if(c.kind == "el")
+				Export_List(p, c.list, c.dim, c.header);
+			else if(c.kind == "et")
+				Export_Table(p, c.table, c.list, c.header);
+			else if(c.kind == "il")
+				answers.push_back({'l', 0, Import_List(p, c.dim, (unsigned int) c.ign), {}});
+			else if(c.kind == "it")
+				answers.push_back({'t', 0, {}, Import_Table(p, c.list, (unsigned int) c.ign)});
+			else
+				answers.push_back({'c', (long) Count_Lines(p), {}, {}});
+		}
+		A.leave();
+		for(auto& a : answers)
+		{
+			if(a.kind == 'l')
+				o.fl(a.list);
+			else if(a.kind == 't')
+				put_table(o, a.table);
+			else
+				o.i(a.count);
+		}
+		if(answers.empty())
+			o.w("done");
 	}
 	else if(op == "import_missing")
 	{
